@@ -25,12 +25,23 @@
     whole text (`listPushHostlist_repaired_terminates`, `_repaired_text`)
   The unchanged `hostlist_deranged_string` (`ret > m`) violates the first, third and fourth point:
   `deranged_writes_in_bounds_false`, `deranged_truncation_iff_false` (kernel-decided witness D14).
+  * `opt_list` (`-q`, `-Q`): nothing is stored outside `wcoll_str[1024]`, for every list
+    (`optList_ranged_in_bounds`, `optList_deranged_in_bounds`; these and `list_push_hostlist` are the
+    only callers of the printing functions in src/pdsh and src/modules)
+  * `hostlist_shift_range` / `hostlist_pop_range` with their RECORD bookkeeping (`shiftRangeRun`,
+    `popRangeRun`): as written they take a list apart group by group exactly when no moved group is
+    joined by `hostlist_push_range` — in particular on every list whose joinable neighbours are joined
+    (`rangeMove_joined`); otherwise the array is left broken (finding F14-RANGEMOVE,
+    `rangeMove_miscount_witness`; such lists arise from the public API: `rangeMove_reachable`); with the
+    records moved counted (findings/C14-rangemove.patch) every list is fine (`rangeMove_repaired`)
   What is not proved: anything about the compiled C code (tied to the model by the
   correspondence of checks/c14.py); lengths are mathematical integers (the C code uses `int`).
 -/
 import PdshVerif.Hostlist.PrintRound2
 import PdshVerif.Hostlist.PrintCallers
 import PdshVerif.Hostlist.PrintMore
+import PdshVerif.Hostlist.PrintRangeMove
+import PdshVerif.Hostlist.Edit
 
 namespace PdshVerif.C14
 open PdshVerif.Hostlist PdshVerif.Hostlist.Print
@@ -282,6 +293,15 @@ theorem optList_ranged_in_bounds (fixed : Bool) (h : HL) :
   simp only [Bool.false_eq_true, ↓reduceIte]
   split <;> rename_i b _ he <;> (rw [he] at this; exact this)
 
+/-- `opt_list` (`-Q`, the expanded form, with the repaired truncation test D14): nothing is stored
+    outside `wcoll_str[1024]` either - for every list of well-formed records -/
+theorem optList_deranged_in_bounds (h : HL) (hg : GoodRecords h) :
+    ∀ w ∈ (optList true true h).1.log, w.1 < WCOLL_STR := by
+  have := (deranged_writes_in_bounds h hg WCOLL_STR (by decide)).1
+  unfold optList
+  simp only [↓reduceIte]
+  split <;> rename_i b _ he <;> (rw [he] at this; exact this)
+
 /-- `list_push_hostlist`, UNCHANGED retry condition `(n*=2 < 0x7fffff)` (D2 / F14-XLOOP): the loop
     never ends exactly when the excluded list's compressed text needs 4095 bytes or more -/
 theorem listPushHostlist_diverges_iff (h : HL) (hg : GoodRecords h) (hne : NoEmptyName h.ranges.toList)
@@ -377,6 +397,45 @@ theorem nextRange_in_bounds (cur : HRange) (rest : List HRange) :
   refine ⟨fun w hw => ?_, k, ?_, h3⟩
   · have := h1 w hw; unfold RANGEBUF; omega
   · unfold RANGEBUF; omega
+
+/-! ### `hostlist_shift_range` / `hostlist_pop_range`: the record bookkeeping (finding F14-RANGEMOVE) -/
+/-- REPAIRED (the records moved are counted): on EVERY record list both functions, called until NULL,
+    hand out the bracket groups one by one (`shiftRangeCalls` / `popRangeCalls`: each call's text is that
+    of the group joined, printed in bounds by `shiftRange_in_bounds` / `popRange_in_bounds`) and never
+    leave a broken array -/
+theorem rangeMove_repaired (f : Nat) (rs : List HRange) :
+    shiftRangeRun true f rs = (shiftRangeCalls f rs, false) ∧ popRangeRun true f rs = (popRangeCalls f rs, false) :=
+  ⟨shiftRangeRun_fixed f rs, popRangeRun_fixed f rs⟩
+
+/-- AS WRITTEN (books kept with `hltmp->nranges`): the same holds on every list in which no record
+    continues its predecessor (`Joined`: joinable neighbours are joined) -/
+theorem rangeMove_joined (f : Nat) (rs : List HRange) (hj : Joined rs) :
+    shiftRangeRun false f rs = (shiftRangeCalls f rs, false) ∧ popRangeRun false f rs = (popRangeCalls f rs, false) :=
+  ⟨shiftRangeRun_joined f rs hj, popRangeRun_joined f rs hj⟩
+
+example : Joined [HRange.mk' ['f'] 1 2 1, HRange.mk' ['g'] 3 4 1, HRange.mk' ['g'] 6 7 1] := by decide
+
+/-- F14-RANGEMOVE witness: `foo[1-2]`, `foo[3-4]` side by side (what `foo[1-2],x,foo[3-4]` minus `x` leaves):
+    as written the first call of either function leaves a broken array; repaired, one call returns the group -/
+theorem rangeMove_miscount_witness :
+    (shiftRangeRun false 3 [HRange.mk' ['f'] 1 2 1, HRange.mk' ['f'] 3 4 1]).2 = true ∧
+    (popRangeRun false 3 [HRange.mk' ['f'] 1 2 1, HRange.mk' ['f'] 3 4 1]).2 = true ∧
+    ((shiftRangeRun true 3 [HRange.mk' ['f'] 1 2 1, HRange.mk' ['f'] 3 4 1]).1.map (·.1)) =
+      [[HRange.mk' ['f'] 1 4 1]] ∧
+    (shiftRangeRun true 3 [HRange.mk' ['f'] 1 2 1, HRange.mk' ['f'] 3 4 1]).2 = false ∧
+    ¬ Joined [HRange.mk' ['f'] 1 2 1, HRange.mk' ['f'] 3 4 1] := by
+  decide
+
+
+/-- such a list comes out of the PUBLIC API: `hostlist_create("f[1-2],x,f[3-4]")`, then
+    `hostlist_delete_host(hl, "x")` — `hostlist_delete_range` closes the gap and the two records that
+    `hostlist_push` would have joined lie side by side (for every variant of the parser this is what
+    the repaired tree gives; stated for `Cfg.repaired`) -/
+theorem rangeMove_reachable :
+    (match pushE Cfg.repaired EL.new "f[1-2],x,f[3-4]".toList with
+     | .ok (_, _, e) => some (deleteHostE Cfg.repaired e ['x']).2.ranges
+     | .error _ => none) = some [HRange.mk' ['f'] 1 2 1, HRange.mk' ['f'] 3 4 1] := by
+  decide
 
 /-! ### one host name into a heap block -/
 /-- `hostlist_next` / `_hostrange_string` (`hostlist_nth`), repaired D17 / D24: the block of
